@@ -221,6 +221,59 @@ def side_effect_family(root, mod):
     return len(progs), mism
 
 
+def weak_cases():
+    """comptime blocks whose body is *weakly typed* (untyped literals, arithmetic on them, untyped array literals): the type comes
+    from the destination - a plain, optional or error-union annotation, a parameter, a struct member, a slice or an array"""
+    cases = []
+    ints = [tyir.Int(n, b, sg) for n, b, sg in (("i8", 8, True), ("u8", 8, False), ("i16", 16, True), ("u16", 16, False), ("i32", 32, True),
+                                                 ("u32", 32, False), ("i64", 64, True), ("u64", 64, False))]
+    uid = 0
+    for T in ints:
+        hi = (1 << (T.bits - 1)) - 1 if T.signed else (1 << T.bits) - 1
+        bodies = [("small", "7", 7), ("sum", "3 + 4 * 5", 23), ("near-max", f"{hi // 3} * 3", hi // 3 * 3), ("max", f"{hi}", hi),
+                  ("with-local", "x := 40; x + 2", 42)]
+        if T.signed:
+            bodies += [("negative", "-5", -5), ("negative-via-local", "x := 40; x - 100", -60), ("min-plus-1", f"-{hi}", -hi)]
+        name = T.name
+        for bname, src, v in bodies:
+            shown = v if v < (1 << 63) else v - (1 << 64)
+            dests = {
+                "plain": (f"c : {name} = comptime {{ {src} }};", "c"),
+                "optional": (f"c : ?{name} = comptime {{ {src} }};", f"#unwrap(c, {name})"),
+                "error-union": (f"c : WkErr!{name} = comptime {{ {src} }};", f"#unwrap(c, {name})"),
+                "const-optional": (f"c : ?{name} : comptime {{ {src} }};", f"#unwrap(c, {name})"),
+                "argument": (f"c := wk_id_{name}(comptime {{ {src} }});", "c"),
+                "optional-argument": (f"c := wk_opt_{name}(comptime {{ {src} }});", "c"),
+                "struct-member": (f"c := WkS_{name}.{{ g = 1, m = comptime {{ {src} }}, o = comptime {{ {src} }} }};", None),
+            }
+            for dname, (stmt, expr) in dests.items():
+                uid += 1
+                if expr is None:
+                    body = f"{stmt}\npr(i64.(c.m)); pr(i64.(#unwrap(c.o, {name})));"
+                    exp = [shown, shown]
+                else:
+                    body = f"{stmt}\npr(i64.({expr}));"
+                    exp = [shown]
+                # the runtime copy of the same expression
+                body += f"\nr : {name} = {{ {src} }};\npr(i64.(r));"
+                exp.append(shown)
+                cases.append(Case(f"weak/{name}/{bname}/{dname}", body, fmt_leaves(exp)))
+        # untyped array literals into slices and arrays
+        arr = [7, -9 if T.signed else 9, hi]
+        lit = ".[" + ", ".join(str(x) for x in arr) + "]"
+        shown = [x if x < (1 << 63) else x - (1 << 64) for x in arr]
+        for dname, stmt in (("slice", f"c : []{name} = comptime {{ {lit} }};"), ("array", f"c : [3]{name} = comptime {{ {lit} }};"),
+                            ("optional-array", f"co : ?[3]{name} = comptime {{ {lit} }}; c := #unwrap(co, [3]{name});")):
+            body = f"{stmt}\npr(i64.(c[0])); pr(i64.(c[1])); pr(i64.(c[2]));\nr : [3]{name} = {lit};\npr(i64.(r[0])); pr(i64.(r[1])); pr(i64.(r[2]));"
+            cases.append(Case(f"weak/{name}/array-literal/{dname}", body, fmt_leaves(shown + shown)))
+    decls = "WkErr :: enum { Bad };\n"
+    for T in ints:
+        n = T.name
+        decls += (f"wk_id_{n} :: (a: {n}) -> {n} {{ a }}\nwk_opt_{n} :: (a: ?{n}) -> {n} {{ #unwrap(a, {n}) }}\n"
+                  f"WkS_{n} :: struct {{ g: u8, m: {n}, o: ?{n} }};\n")
+    return cases, decls
+
+
 def run(tier, seed):
     started = time.time()
     quick = tier == "quick"
@@ -230,6 +283,9 @@ def run(tier, seed):
     for i, T in enumerate(tys):
         cases += make_cases(T, i, quick)
     cases += computed_cases()
+    wcases, wdecls = weak_cases()
+    cases += wcases
+    prelude += wdecls
     runner = core.Runner("c04", batch_size=40, prelude=prelude)
     mism = runner.run(cases)
     nse, sm = side_effect_family(runner.root, runner.mod)
@@ -243,7 +299,7 @@ def run(tier, seed):
         "exhaustive": True,
         "rule": "a case = (result type, value, placement of the comptime block); each compiled (blocks evaluated by the real comptime JIT) and "
                 "executed; the comptime copy and the runtime copy are printed leaf by leaf",
-        "bounds_completed": {"types": len(tys), "placements": PLACEMENTS, "computed_blocks": 16, "side_effect_programs": nse,
+        "bounds_completed": {"types": len(tys), "placements": PLACEMENTS, "computed_blocks": 16, "side_effect_programs": nse, "weakly_typed_bodies": len(wcases),
                              "values": "integers/floats: boundary values of the type; aggregates and sum types: two values per top-level shape"},
         "distinct_outcomes": len(outcomes),
         "compilations": runner.compiles + nse,
